@@ -4,7 +4,10 @@ use std::fmt::Formatter;
 use std::ops::Sub;
 use std::sync::atomic::Ordering;
 use std::sync::Arc;
+#[cfg(not(rs_store_verif))]
 use std::{fmt, sync::atomic::AtomicUsize, time::Duration};
+#[cfg(rs_store_verif)]
+use {simrt::sync::atomic::AtomicUsize, std::fmt, std::time::Duration};
 
 /// Metrics is a trait for metrics that can be used to track the state of the store.
 #[allow(dead_code)]
